@@ -15,6 +15,7 @@ from vlib import trees as T
 ID = 'C11'
 LEVEL = 'model_checking'
 FUNCTIONS = ['ddsmt.nodes:substitute', 'ddsmt.mutator_utils:apply_simp',
+             'ddsmt.smtlib:get_defined_fun',
              'ddsmt.smtlib:introduce_variables', 'ddsmt.nodes:Node.__eq__']
 ASSUMPTIONS = [
     'identity keys designate pairwise non-nested nodes of the input',
@@ -29,7 +30,7 @@ ASSUMPTIONS = [
 OUTSIDE = ['trees with more nodes than the bound; more than three entries '
            'in one replacement map; leaf texts longer than one character']
 
-KINDS = 9
+KINDS = 10
 
 
 def bounds(tier):
@@ -120,8 +121,12 @@ def _scenario(c, forest, Node):
         # given, the structural rule must not rewrite inside it
         idrepl(c['p1'], [v, k])
         skey, sval = k, w
+    elif kind == 9:
+        # structural deletion: every occurrence of the key disappears
+        skey, sval = k, M.DELETE
     if skey is not None:
-        repl[_mk(Node, skey)] = _mk(Node, sval)
+        repl[_mk(Node, skey)] = None if sval is M.DELETE \
+            else _mk(Node, sval)
     return exprs, model, repl, path_repl, skey, sval
 
 
@@ -186,6 +191,8 @@ def _check(c, forest, fuel=None):
             cp = path + (i,)
             if cp in path_repl and path_repl[cp] is M.DELETE:
                 continue
+            if cp not in path_repl and sval is M.DELETE and M.eq(cm, skey):
+                continue
             r = walk(onode.data[i], cm, cp, rnode.data[ri])
             if r:
                 return r
@@ -196,6 +203,8 @@ def _check(c, forest, fuel=None):
     for i, m in enumerate(model):
         p = (i,)
         if p in path_repl and path_repl[p] is M.DELETE:
+            continue
+        if p not in path_repl and sval is M.DELETE and M.eq(m, skey):
             continue
         r = walk(exprs[i], m, p, res_list[ri])
         if r:
@@ -236,11 +245,11 @@ def make(forests, kind):
             assume(not _nested(allpos[p1], allpos[p2]))
         else:
             assume(p2 == 0)
-        if kind not in (0, 1, 2, 6, 7, 8):
+        if kind not in (0, 1, 2, 6, 7, 8, 9):
             assume(len(k) == 0)
-        if kind in (0, 4):
+        if kind in (0, 4, 9):
             assume(len(w) == 0)
-        if kind == 4:
+        if kind in (4, 9):
             assume(len(v) == 0)
         if kind in (6, 7):
             assume(v != k)       # see ASSUMPTIONS
@@ -262,7 +271,7 @@ def _decl_check(c):
     target = cmds[-1]
     var = Node('declare-const', 'fresh', 'Int')
     substs = {target.id: Node('assert', 'fresh')} if c['change'] else \
-        {-5: Node('y')}
+        {10 ** 12: Node('y')}
     res = apply_simp(cmds, Simplification(substs, [var]))
     model = [T.to_list(x) for x in cmds]
     if not c['change']:
@@ -300,6 +309,49 @@ def make_decl():
     return h
 
 
+# ------------------------------------------------ function inlining
+
+def inline_check(c):
+    """smtlib.get_defined_fun instantiates a body by *simultaneous*
+    structural substitution formal -> actual (property C11: 'function
+    inlining and let substitution use structural keys formal -> actual')."""
+    from ddsmt import smtlib
+    from ddsmt.nodes import Node
+    body = ('+', ('*', '2', 'a'), ('-', 'b', 'c'), 'a')
+    exprs = [Node('define-fun', 'f', (('a', 'Int'), ('b', 'Int'),
+                                      ('c', 'Int')), 'Int', body)]
+    acts = [c['x0'], c['x1'], c['x2']]
+    if c['nested']:
+        acts[1] = ['g', c['x1'], c['x0']]
+    call = Node('f', *[_mk(Node, a) for a in acts])
+    exprs.append(Node('assert', Node('>', call, '0')))
+    smtlib.collect_information(exprs)
+    res = smtlib.get_defined_fun(call)
+    env = {'a': acts[0], 'b': acts[1], 'c': acts[2]}
+
+    def inst(t):
+        if isinstance(t, tuple):
+            return [inst(x) for x in t]
+        return env.get(t, t)
+
+    want = inst(body)
+    got = T.to_list(res)
+    if got != want:
+        return (f'inlining (f {acts[0]!r} {acts[1]!r} {acts[2]!r}) gives '
+                f'{got!r}, simultaneous substitution gives {want!r}')
+    return None
+
+
+def make_inline():
+    def h(x0: str, x1: str, x2: str, nested: bool):
+        for x in (x0, x1, x2):
+            assume(len(x) == 1)
+        r = inline_check(dict(locals()))
+        if r:
+            raise Violation(r)
+    return h
+
+
 def _chunks(xs, n):
     k = max(1, (len(xs) + n - 1) // n)
     return [xs[i:i + k] for i in range(0, len(xs), k)]
@@ -315,6 +367,13 @@ def _reset():
     shims.reset_ids()
 
 
+def _reset_info():
+    from vlib import shims
+    from ddsmt import smtlib
+    shims.reset_ids()
+    smtlib.reset_information()
+
+
 NCHUNK = 6
 
 
@@ -326,6 +385,8 @@ def partitions(tier):
             parts.append({'name': f'k{kind}_{j}', 'fn': make(ch, kind),
                           'setup': _setup, 'reset': _reset, 'budget_s': bud,
                           'bounds': {'kind': kind, 'forests': len(ch)}})
+    parts.append({'name': 'inline', 'fn': make_inline(), 'setup': _setup,
+                  'reset': _reset_info, 'budget_s': bud})
     parts.append({'name': 'decl', 'fn': make_decl(), 'setup': _setup, 'reset': _reset,
                   'budget_s': bud})
     return parts
@@ -344,6 +405,8 @@ def replay(part, cex):
     try:
         if part == 'decl':
             return _decl_check(cex)
+        if part == 'inline':
+            return inline_check(cex)
         kind, j = part[1:].split('_')
         ch = _chunks(_forests(tier), NCHUNK)[int(j)]
         c = dict(cex)
